@@ -157,10 +157,30 @@ func vhSameEntries(a, b []vhEntry) bool {
 	return true
 }
 
+// vhPreReplay (PREREPLAY=1): a Replay that sends buffered events to a client whose
+// k-th Send fails comes first. A Replay, failed or not, leaves nothing behind in the
+// replayer: what the following Put/GC evicts is unreachable all the same.
+func vhPreReplay(rep Replayer, lid EventID, topics []string) {
+	cl := &vhClient{failSendAt: verifChoose("prereplay.failat", 3) - 1}
+	_ = rep.Replay(Subscription{Client: cl, LastEventID: lid, Topics: topics})
+}
+
 func vhC08Put() {
 	n := verifParam("CAP", 3)
 	auto := verifParam("AUTO", 0) == 1
-	r, alpha, _ := vhFinitePre(n, auto)
+	r, alpha, first := vhFinitePre(n, auto)
+	if verifParam("PREREPLAY", 0) == 1 && len(alpha) > 0 {
+		var all []string
+		for _, e := range alpha {
+			all = append(all, e.topics...)
+		}
+		lid := alpha[0].msg.ID
+		if auto && first > 0 {
+			// the ID issued just before the oldest buffered one: everything buffered is replayed
+			lid = ID(strconv.FormatUint(first-1, 10))
+		}
+		vhPreReplay(r, lid, all)
+	}
 	var curBefore uint64
 	if auto {
 		curBefore = *r.currentID
@@ -244,15 +264,7 @@ func vhC08Put() {
 // verifReachableOrNative: heap reachability is decided by the executor; natively
 // fall back to scanning the ring's whole backing array.
 func verifReachableOrNative(r *FiniteReplayer, m *Message) bool {
-	if verifSymbolic() {
-		return verifReachable(r, m)
-	}
-	for _, e := range r.buf.buf[:cap(r.buf.buf)] {
-		if e.message == m {
-			return true
-		}
-	}
-	return false
+	return verifReachable(r, m)
 }
 
 func vhC08Replay() {
